@@ -24,15 +24,16 @@ Section M.
     | O => Done []
     | S k => let* s := rd_suite p in let* r := rd_suites k (p + suite_len) in Done (s :: r)
     end.
-  (* count (16-bit little-endian, clamped), then that many suites; Err when they do not fit *)
+  (* count (16-bit little-endian), the whole list must fit (Err otherwise); the first max_suites suites are kept
+     and the walk continues behind the whole list *)
   Definition rd_suite_list (p end_ : Z) : res (outcome (list suite * Z)) :=
     if end_ <? p + 2 then Done (Err (- EINVAL)) else
     let* c := rd_le rd 2 p in
-    let cnt := if max_suites <? c then max_suites else c in
     let p1 := p + 2 in
-    if end_ <? p1 + cnt * suite_len then Done (Err (- EINVAL)) else
+    if end_ - p1 <? c * suite_len then Done (Err (- EINVAL)) else
+    let cnt := if max_suites <? c then max_suites else c in
     let* l := rd_suites (Z.to_nat cnt) p1 in
-    Done (Ok (l, p1 + cnt * suite_len)).
+    Done (Ok (l, p1 + c * suite_len)).
 
   (* libwifi_get_rsn_info(info, tag_data = base, tag_end = end_) *)
   Definition get_rsn_info (base end_ : Z) : res (outcome rsn_info) :=
